@@ -41,12 +41,49 @@ COMPONENTS = {
 }
 
 
+SWEEP = {  # line-sweep crash enumeration: (bases, stride) per tier, victim process index
+    "C11": {"quick": (1, 6), "thorough": (10, 1), "victim": 0},
+}
+
+
+def sweep_tasks(prop, base_seed, tier, first_idx):
+    """For a few (workload, schedule) pairs enumerate every traced line of the victim
+    process as the crash point (DESIGN 4/C11 'line sweep')."""
+    from . import engine_s, workload
+
+    nb, stride = SWEEP[prop][tier]
+    victim = SWEEP[prop]["victim"]
+    tasks, info = [], []
+    idx = first_idx
+    for j in range(nb):
+        seed = M.seed_for(base_seed, prop + "-sweep", j)
+        scn = workload.generate(prop, seed, tier)
+        if victim >= len(scn["procs"]):
+            continue
+        scn["cfg"]["trace"] = True
+        scn["cfg"]["preempt"] = 0
+        lines = M.in_child(lambda: engine_s.measure_lines(prop, seed, scn, None, 20000), timeout=40)
+        n = int(lines.get(str(victim), 0)) if isinstance(lines, dict) and "harness" not in lines else 0
+        sig = ["KILL", "TERM", "INT"][j % 3] if prop == "C11" else "KILL"
+        info.append({"seed": seed, "victim_lines": n, "stride": stride, "sig": sig})
+        for line in range(1, n + 1, stride):
+            tasks.append((idx, seed, {"sweep_line": line, "of": n, "victim": victim, "sig": sig}))
+            idx += 1
+    return tasks, info
+
+
 def run_check(prop, tier, base_seed, args):
     t0 = time.time()
     nruns = args.runs or RUNS[tier][prop]
     nworkers = args.workers or min(16, os.cpu_count() or 4)
     wall = args.wall or WALL[tier]
-    total = M.run_pool(prop, base_seed, nruns, tier, nworkers, wall)
+    tasks = [(idx, M.seed_for(base_seed, prop, idx), None) for idx in range(nruns)]
+    sweep_info = None
+    if prop in SWEEP and not args.runs:
+        st, sweep_info = sweep_tasks(prop, base_seed, tier, nruns)
+        # interleave so that a wall-clock cut-off trims both parts alike
+        tasks = tasks + st
+    total = M.run_pool(prop, base_seed, len(tasks), tier, nworkers, wall, tasks=tasks)
     known = M.load_known()
     rc = 0
     lines = []
@@ -90,8 +127,12 @@ def run_check(prop, tier, base_seed, args):
         rc = 2
     wall_s = time.time() - t0
     if not args.no_evidence:
+        extra = None
+        if sweep_info is not None:
+            extra = {"line_sweeps": sweep_info,
+                     "line_sweep_note": "for each listed (workload, schedule) seed every stride-th traced line of the victim process was used as the crash point (stride 1 = the crash-point axis is enumerated for that schedule)"}
         write_evidence(prop, tier, base_seed, total, wall_s, len(new_viol), "exploration", COMPONENTS,
-                       known_hits={k: v[1] for k, v in known_hits.items()})
+                       known_hits={k: v[1] for k, v in known_hits.items()}, extra=extra)
     for l in lines:
         print(l)
     print("%s tier=%s seed=%d runs=%d nontrivial_distinct=%d steps=%d violating_runs=%d known=%d wall=%.1fs -> exit %d"
@@ -113,7 +154,7 @@ def report_violation(prop, rec, v, tier):
     """Re-run with full trace, shrink, write the replay file, verify the replay in a
     fresh interpreter."""
     seed = rec["seed"]
-    res = M.in_child(lambda: M.execute_run(prop, seed, full=True, tier=tier))
+    res = M.in_child(lambda: M.execute_run(prop, seed, full=True, tier=tier, extra=rec.get("extra")))
     if same_violation(res, v) is None:
         return None, False, "violation did not reproduce from its seed"
     from .shrink import shrink
